@@ -7,6 +7,21 @@ HERE = os.path.dirname(os.path.abspath(__file__))
 
 # id -> (technique, level text, level note, design ref)
 CLAIMS = {
+    "C01": (
+        "MIR rules: who-may-call on alloc/dealloc/realloc and on the slab vector's mutators, single-writer of the storage pointer, backward slices for handle provenance and layout-offset agreement, control-dependence of the shrink scan on is_empty()",
+        "Decides structural necessary conditions only: slot storage immobility, order-preserving slab-vector discipline, shrink_to_fit keeping every non-empty slab, handle provenance (index/pointer computed at insertion and preserved by copy-constructors), stride/offset/array-alignment agreement between SlabLayout and its two readers, VacancyMap::resize contract. Non-overlap and value integrity over all histories and alignment arithmetic for all layouts are not decided.",
+        "Trusted: rustc nightly MIR and callee resolution, factgen extraction, rule table in vf/props/c01.py (method whitelists, sanctioned mutators).",
+        "DESIGN.md section 3, C01"),
+    "C02": (
+        "MIR rules: exactly-once-per-path counting of dropper creation / counter updates / forget, dominating-switch guards (Occupied arm), who-may-call removal-authority table, must-pass-through for vacancy bookkeeping, duplicate-then-forget discipline",
+        "Decides structural necessary conditions only: dropper pairing, remove destroys once / remove_unpin forgets, double-remove guard, paired counters updated once per path after user code, vacancy bookkeeping never skipped, into_parts forget discipline, single removal authority, Slab::drop policy order, shrink keeps live slabs. It does not decide len/iteration agreement over all histories.",
+        "Trusted: rustc nightly MIR (elaborated drops), factgen extraction, rule tables in vf/props/c02.py (removal-authority table).",
+        "DESIGN.md section 3, C02"),
+    "C04": (
+        "guard-liveness dataflow on elaborated MIR x interprocedural user-code classification (type-erased dropper, closure parameters tracked parametrically, drop glue of local types), catch_unwind containment, split-update detection",
+        "Decides the repository's own callback-safety rule structurally: no user code under a live pool guard (re-entry), none uncontained under a MutexGuard (poisoning), no persistent writes on both sides of a may-unwind user point, restore-before-destroy in Slab::remove, closures of the thread-safe entry points confined to catch_unwind with the guard released before resume_unwind. The 25 sites violating R1-R3 on the pinned tree are genuine reproduced defects listed as known findings; any other site is a VIOLATION. That the pool still works after every fault sequence is not decided.",
+        "Trusted: rustc nightly drop elaboration and unwind edges, factgen extraction, the user-code classification (U1-U5) and its two named benign sites in vf/props/c04.py.",
+        "DESIGN.md section 3, C04"),
     "C18": (
         "MIR rules: exactly-once forwarding on every path, argument/return identity by backward slice, who-may-call on the counters, dominance of register-before-publish",
         "Decides structural necessary conditions only: each GlobalAlloc method forwards exactly once with unchanged arguments and returns the inner result; (size,1) is recorded exactly once for alloc/alloc_zeroed/realloc and never for dealloc; counters are thread-local and registered before publication; spans subtract their start snapshot. It does not decide exactness over all allocation histories/interleavings.",
